@@ -517,6 +517,8 @@ func (x *Exec) specCallExpr(env *SpecEnv, e *SExpr) Value {
 			return BoolV{x.strEq(x.specEval(env, e.Args[0]).(StrV), x.specEval(env, e.Args[1]).(StrV))}
 		case "sid":
 			return IntV{x.strID(env.st, x.specEval(env, e.Args[0]).(StrV))}
+		case "canonkeyof":
+			return IntV{x.canonKey(env.st, x.specEval(env, e.Args[0]).(StrV))}
 		case "tolower", "trimspace", "canonkey":
 			return IntV{App("strfn_"+name, SInt, x.asTerm(x.specEval(env, e.Args[0])))}
 		case "hasprefix":
@@ -562,6 +564,13 @@ func (x *Exec) specCallExpr(env *SpecEnv, e *SExpr) Value {
 				x.specFail("aset: no pointer field v")
 			}
 			return BoolV{And(Ne(p.Addr, IntLit(0)), Select(env.st.heapArr("atomicValue#set", SBool), p.Addr))}
+		case "rwheader":
+			// header map of an http.ResponseWriter (a function of the writer, as in the net/http model)
+			w := x.specEval(env, e.Args[0])
+			id := App("rwheader", SInt, x.asTermAny(w))
+			hp := x.L.pkgOf("net/http")
+			mt := hp.Types.Scope().Lookup("Header").Type().Underlying().(*types.Map)
+			return MapV{ID: id, Type: mt}
 		case "resphdr":
 			return x.respHeaderMap(env.st, x.specEval(env, e.Args[0]))
 		case "respbody":
